@@ -9,7 +9,7 @@ import (
 	rt "github.com/Azbesciak/RealDecisionMaker/lib/zz_verifrt"
 )
 
-//verif:bounds C13 HC13_acceptance: known alternatives A in 1..3 (quick) / 1..4 (thorough), considered = all or all-but-last, currentChoice absent / first considered / last considered / known-not-considered, K<=2 (quick) / K<=3 (thorough) criteria (first gain or cost, others alternate; the first optionally with a declared symbolic valuesRange), 0..2 (quick) / 0..3 (thorough) explicit levels with free thresholds or a generated series (multiplied / subtractive) with concrete parameters; fixed search order; all values free reals
+//verif:bounds C13 HC13_acceptance: known alternatives A in 1..3 (quick) / 1..4 (thorough), considered = all or all-but-last, currentChoice absent / first considered / last considered / known-not-considered, K<=2 criteria (first gain or cost, others alternate; the first optionally with a declared symbolic valuesRange), 0..2 (quick) / 0..3 (thorough) explicit levels with free thresholds or a generated series (multiplied / subtractive) with concrete parameters; fixed search order; all values free reals
 //verif:bounds C13 HC13_shuffled: seeded-random order (symbolic draws), A<=3, K<=2, explicit levels; order-independent clauses only
 //verif:outside C13: symbolic series parameters (C14); sizes beyond the bounds
 //verif:assume C13: the threshold list used by the oracle comes from a second instance of the real satisfaction-levels source (its content is the subject of C14)
@@ -91,7 +91,7 @@ func c13knownFindings(s *c13setup) {
 
 //verif:harness HC13_acceptance mode=REAL reach=accepted,accepted-later-level,leftover,cc-considered,cc-notconsidered,declared-range,no-levels
 func HC13_acceptance() {
-	s := c13build(rt.Pick(3, 4), rt.Pick(2, 3), rt.Pick(2, 3), false)
+	s := c13build(rt.Pick(3, 4), 2, rt.Pick(2, 3), false)
 	c13knownFindings(s)
 	h := NewSatisfaction(rt.Generators, c13sources)
 	r := h.Evaluate(s.dmp)
